@@ -344,7 +344,7 @@ def pairwise_annotations_spacing(X, max_distance=100, dtype=torch.uint8,
 			for j, (idx1, start1, end1) in enumerate(annotations[i+1:]):
 				if start0 < start1:
 					d = start1 - end0
-					if d > max_distance:
+					if d < 0 or d >= max_distance:
 						continue
 
 					y[idx0, idx1, d] += 1
@@ -353,7 +353,7 @@ def pairwise_annotations_spacing(X, max_distance=100, dtype=torch.uint8,
 
 				else:
 					d = start0 - end1
-					if d > max_distance:
+					if d < 0 or d >= max_distance:
 						continue
 
 					y[idx1, idx0, d] += 1
